@@ -477,3 +477,94 @@ def check_assert_effects(m, rule, suffixes):
                 rule.ok(fa.name, 'the NDEBUG build performs every store / effectful call of the assertion build', floc(m, fa))
     if n == 0:
         rule.undecided('assert-effects', 'no function of %s found in both configurations' % ', '.join(suffixes))
+
+
+# ---- the library keeps no state of its own ---------------------------------------------------------------
+
+def check_no_mutable_globals(m, rule, units):
+    """no writable object with static storage duration in the given units: a function-local `static` context struct makes
+    an enumeration non-reentrant (a nested walk from inside a callback redirects the outer one)"""
+    n = 0
+    for u in units:
+        mod = m.plain.get(u)
+        if mod is None:
+            continue
+        n += 1
+        bad = [g for g in mod.globals.values() if not g.get('decl') and not g.get('const') and not g['name'].startswith(('.str', 'llvm.', '__PRETTY_FUNCTION__', '__func__'))]
+        if bad:
+            rule.violation(u + '.c', 'the unit defines writable object(s) with static storage duration (%s): library functions that keep state there are '
+                           'not reentrant - a callback that calls back into the same function overwrites the state of the call it runs under'
+                           % ', '.join(sorted(g['name'] for g in bad)[:3]), 'src/%s.c' % u, {})
+        else:
+            rule.ok(u + '.c', 'no writable static / file-scope object')
+    if n == 0:
+        rule.undecided('globals', 'units not in the model')
+
+
+def writes_through_param(m, g, k, depth=0, seen=None):
+    """may g store into memory reached from its k-th parameter (directly, by a block copy, or through a callee it hands it to)?"""
+    from ..ir import resolve_addr
+    from ..facts import strip_bitcasts
+    seen = seen if seen is not None else set()
+    if g is None or g.decl or (g.name, k) in seen or depth > 4:
+        return False
+    seen.add((g.name, k))
+    root = '$%d' % k
+    for i in g.all_insts():
+        if i.op == 'store':
+            r = resolve_addr(g, i.o[1]).root
+            if isinstance(r, str) and strip_bitcasts(g, r) == root:
+                return True
+        elif i.op == 'call':
+            cal = i.callee or ''
+            if cal.startswith(('llvm.memcpy', 'llvm.memmove', 'llvm.memset')):
+                r = resolve_addr(g, i.o[0]).root
+                if isinstance(r, str) and strip_bitcasts(g, r) == root:
+                    return True
+            elif i.callee and not i.is_intrinsic():
+                h = g.module.fn(i.callee)
+                if h is None or h.decl:
+                    h = m.pfn(i.callee)
+                for j, o in enumerate(i.o):
+                    if isinstance(o, str):
+                        r = resolve_addr(g, o).root
+                        if isinstance(r, str) and strip_bitcasts(g, r) == root and writes_through_param(m, h, j, depth + 1, seen):
+                            return True
+    return False
+
+
+def check_const_params(m, rule, hdrs):
+    """a parameter declared pointer-to-const (a probe, a key) is never written through, however the address is converted on
+    the way (element <-> node arithmetic casts the qualifier away)"""
+    from ..ir import resolve_addr
+    from .. import listrules
+    from ..facts import strip_bitcasts
+    decls = header_functions(m, hdrs)
+    n = 0
+    for name, d in sorted(decls.items()):
+        f = m.pfn(name)
+        if f is None:
+            continue
+        cps = [k for k, (ty, pn) in enumerate(d.params) if ty and '*' in ty and ty.replace(' ', '').startswith('const') and ty.count('*') == 1]
+        if not cps:
+            continue
+        n += 1
+        bad = []
+        for k in cps:
+            root = '$%d' % k
+            for s2 in f.all_insts():
+                if s2.op != 'store':
+                    continue
+                r = resolve_addr(f, s2.o[1]).root
+                if not isinstance(r, str):
+                    continue
+                r0 = strip_bitcasts(f, r)
+                if r0 == root or listrules.handed_node(f, r0) == root or listrules.derived_from(f, r0, root):
+                    bad.append('memory reached from the const parameter `%s` is written at %s: the caller\'s probe / key object is modified (or, when the '
+                               'probe is itself a resident element, a node still in the container)' % (d.params[k][1] or root, s2.loc()))
+        if bad:
+            rule.violation(name, '; '.join(sorted(set(bad))[:2]), floc(m, f), {})
+        else:
+            rule.ok(name, '%d const pointer parameter(s), none written through' % len(cps), floc(m, f))
+    if n == 0:
+        rule.undecided('const-params', 'no function with a pointer-to-const parameter found')
